@@ -115,11 +115,13 @@ def register_candidates(db):
         ghost={"i": "int"},
         ensures=[
             # for an arbitrary position i: if the converter of types[i] accepts and no earlier candidate's does, its value is the result
+            ("returns-a-converted-value-or-fails", "result is not None"),
             ("the-first-accepting-candidate-decides",
              "implies(0 <= i and i < len(types) and " + ACC.format(i="i") + " and uf('type_converter.registered', 'bool', types[i]) and "
              "forall('int', lambda j: implies(0 <= j and j < i, not (uf('type_converter.registered', 'bool', types[j]) and " + ACC.format(i="j") + "))), "
              "result == " + VAL.format(i="i") + ")"),
         ],
+        # (a value is returned only from inside the loop; falling off its end must raise)
         raises={"ConverterError": "forall('int', lambda j: implies(0 <= j and j < len(types), "
                                   "not (uf('type_converter.registered', 'bool', types[j]) and " + ACC.format(i="j") + ")))"},
         loops=[Loop(invariants=["forall('int', lambda j: implies(0 <= j and j < _i, "
